@@ -767,6 +767,68 @@ impl<'s> Semantics<'s> {
         Ok(())
     }
 
+    /// The base operand of bt/btc/btr/bts. With a memory base and a register bit
+    /// offset the instruction addresses a bit string: the word accessed lies
+    /// `(offset >> log2(size))` words (arithmetic shift: the offset is signed)
+    /// away from the effective address. Returns the loaded base value and, in
+    /// that case, the address the modified word goes back to.
+    fn bit_base(
+        &self,
+        block: &mut Block,
+        detail: &capstone::cs_x86,
+    ) -> Result<(Expression, Option<Expression>), Error> {
+        let base_operand = &detail.operands[0];
+        let offset_operand = &detail.operands[1];
+        if base_operand.type_ != x86_op_type::X86_OP_MEM
+            || offset_operand.type_ != x86_op_type::X86_OP_REG
+        {
+            return Ok((self.operand_load(block, base_operand)?, None));
+        }
+        let bits = base_operand.size as usize * 8;
+        let address_bits = self.mode().bits();
+        let offset = self.operand_load(block, offset_operand)?;
+        if offset.bits() != bits {
+            return Ok((self.operand_load(block, base_operand)?, None));
+        }
+        let log2 = match bits {
+            16 => 4,
+            32 => 5,
+            64 => 6,
+            _ => return Ok((self.operand_load(block, base_operand)?, None)),
+        };
+        let mut index = Expr::ashr(offset, expr_const(log2, bits))?;
+        if bits < address_bits {
+            index = Expr::sext(address_bits, index)?;
+        } else if bits > address_bits {
+            index = Expr::trun(address_bits, index)?;
+        }
+        let displacement = Expr::mul(index, expr_const((bits / 8) as u64, address_bits))?;
+        let address = Expr::add(
+            self.mode().operand_value(base_operand, self.instruction())?,
+            displacement,
+        )?;
+        let temp = Scalar::temp(self.instruction().address, bits);
+        block.load(temp.clone(), address.clone());
+        Ok((temp.into(), Some(address)))
+    }
+
+    /// Stores the modified word of btc/btr/bts where `bit_base` took it from.
+    fn bit_store(
+        &self,
+        block: &mut Block,
+        detail: &capstone::cs_x86,
+        address: Option<Expression>,
+        value: Expression,
+    ) -> Result<(), Error> {
+        match address {
+            Some(address) => {
+                block.store(address, value);
+                Ok(())
+            }
+            None => self.operand_store(block, &detail.operands[0], value),
+        }
+    }
+
     /*
         BT saves the value of the bit indicated by the base (first operand) and the
         bit offset (second operand) into the carry flag.
@@ -786,7 +848,7 @@ impl<'s> Semantics<'s> {
             let block = control_flow_graph.new_block()?;
 
             // get started
-            let base = self.operand_load(block, &detail.operands[0])?;
+            let (base, _) = self.bit_base(block, &detail)?;
             let mut offset = self.operand_load(block, &detail.operands[1])?;
 
             // let's ensure we have equal sorts
@@ -832,7 +894,7 @@ impl<'s> Semantics<'s> {
             let block = control_flow_graph.new_block()?;
 
             // get started
-            let base = self.operand_load(block, &detail.operands[0])?;
+            let (base, base_address) = self.bit_base(block, &detail)?;
             let mut offset = self.operand_load(block, &detail.operands[1])?;
 
             // let's ensure we have equal sorts
@@ -851,7 +913,7 @@ impl<'s> Semantics<'s> {
 
             let expr = Expr::shl(expr_const(1, base.bits()), offset)?;
             let expr = Expr::xor(base, expr)?;
-            self.operand_store(block, &detail.operands[0], expr)?;
+            self.bit_store(block, &detail, base_address, expr)?;
 
             block.index()
         };
@@ -883,7 +945,7 @@ impl<'s> Semantics<'s> {
             let block = control_flow_graph.new_block()?;
 
             // get started
-            let base = self.operand_load(block, &detail.operands[0])?;
+            let (base, base_address) = self.bit_base(block, &detail)?;
             let mut offset = self.operand_load(block, &detail.operands[1])?;
 
             // let's ensure we have equal sorts
@@ -904,7 +966,7 @@ impl<'s> Semantics<'s> {
             let expr = Expr::xor(expr, expr_const(0xffff_ffff_ffff_ffff, base.bits()))?;
             let expr = Expr::and(base, expr)?;
 
-            self.operand_store(block, &detail.operands[0], expr)?;
+            self.bit_store(block, &detail, base_address, expr)?;
 
             block.index()
         };
@@ -936,7 +998,7 @@ impl<'s> Semantics<'s> {
             let block = control_flow_graph.new_block()?;
 
             // get started
-            let base = self.operand_load(block, &detail.operands[0])?;
+            let (base, base_address) = self.bit_base(block, &detail)?;
             let mut offset = self.operand_load(block, &detail.operands[1])?;
 
             // let's ensure we have equal sorts
@@ -956,7 +1018,7 @@ impl<'s> Semantics<'s> {
             let expr = Expr::shl(expr_const(1, base.bits()), offset)?;
             let expr = Expr::or(base, expr)?;
 
-            self.operand_store(block, &detail.operands[0], expr)?;
+            self.bit_store(block, &detail, base_address, expr)?;
 
             block.index()
         };
